@@ -1633,6 +1633,7 @@ static size_t uv__fs_buf_offset(uv_buf_t* bufs, size_t size) {
 static ssize_t uv__fs_write_all(uv_fs_t* req) {
   unsigned int iovmax;
   unsigned int nbufs;
+  unsigned int skip;
   uv_buf_t* bufs;
   ssize_t total;
   ssize_t result;
@@ -1651,10 +1652,22 @@ static ssize_t uv__fs_write_all(uv_fs_t* req) {
       result = uv__fs_write(req);
     while (result < 0 && errno == EINTR);
 
-    if (result <= 0) {
+    if (result < 0) {
       if (total == 0)
         total = result;
       break;
+    }
+
+    if (result == 0) {
+      /* Nothing was written. That is expected when the chunk starts with
+       * empty buffers: skip them and carry on with the rest of the list.
+       */
+      for (skip = 0; skip < req->nbufs && req->bufs[skip].len == 0; skip++);
+      if (skip == 0)
+        break;
+      req->bufs += skip;
+      nbufs -= skip;
+      continue;
     }
 
     if (req->off >= 0)
